@@ -836,9 +836,29 @@ func (mgr *Manager) updateTagJob(name string, t tag, tagDetails map[string]query
 			for _, converter := range t.converters {
 				mgr.streamsToConvert[converter.Name()].Or(t.Matches)
 			}
+			// streams on which a referenced tag changed while the job was running
+			// (mark add/del) were evaluated against the old matches: keep them uncertain
+			for rtn, snapshot := range tagDetails {
+				rt, ok := mgr.tags[rtn]
+				if !ok {
+					continue
+				}
+				changed := rt.Matches.XorCopy(snapshot.Matches)
+				if changed.IsZero() {
+					continue
+				}
+				if slices.Contains(t.features.SubQueryTags, rtn) {
+					t.Uncertain = mgr.allStreams
+					break
+				}
+				t.Uncertain.Or(changed)
+			}
 			mgr.tags[name] = &t
 			if !(mgr.updatedStreamsDuringTaggingJob.IsZero() && mgr.resetStreamsDuringTaggingJob.IsZero() && mgr.addedStreamsDuringTaggingJob.IsZero()) {
 				mgr.invalidateTags(mgr.updatedStreamsDuringTaggingJob, mgr.resetStreamsDuringTaggingJob, mgr.addedStreamsDuringTaggingJob)
+			} else {
+				// referenced tags may have become uncertain while the job was running
+				mgr.inheritTagUncertainty()
 			}
 			if err := mgr.saveState(); err != nil {
 				log.Printf("updateTagJob failed, unable to save state: %q", err)
